@@ -736,3 +736,215 @@ pub fn c18_case(case: &Value, acc: &mut CompAcc) {
         }
     }
 }
+
+// ------------------------------------------------------------------------------------------------
+// C07: admission / eviction rule on the real LFUPolicy (driven without its background thread)
+
+pub fn c07_cases(tier: &str) -> Vec<Value> {
+    let mut v = Vec::new();
+    let full_n = if tier == "quick" { 5 } else { 6 };
+    for n in 0..=full_n {
+        // one case = all cost vectors for (n, popularity-vector chunk): split by the first digits to get parallelism
+        let chunks = if n >= 5 { 27 } else { 1 };
+        for ch in 0..chunks {
+            v.push(json!({"n": n, "chunk": ch, "chunks": chunks, "mode": "full"}));
+        }
+    }
+    for n in (full_n + 1)..=7 {
+        v.push(json!({"n": n, "chunk": 0, "chunks": 1, "mode": "structured"}));
+    }
+    v
+}
+
+pub fn c07_case(case: &Value, acc: &mut CompAcc) {
+    use crate::model::FixedState;
+    use stretto::verif::{take_evict_rounds, VPolicy};
+    let n = case["n"].as_u64().unwrap() as usize;
+    let chunk = case["chunk"].as_u64().unwrap();
+    let chunks = case["chunks"].as_u64().unwrap();
+    let structured = case["mode"] == "structured";
+    let pops_total = 3u64.pow(n as u32);
+    let costs_total = 2u64.pow(n as u32);
+    let pop_vals = [0u64, 1, 3];
+    let cost_vals = [1i64, 3];
+    let mut pop_codes: Vec<u64> = (0..pops_total).filter(|c| c % chunks == chunk).collect();
+    let mut cost_codes: Vec<u64> = (0..costs_total).collect();
+    if structured {
+        // all-equal, ascending, descending, one-hot popularity; uniform and alternating costs
+        pop_codes = vec![0, pops_total - 1, (pops_total - 1) / 2, 1, pops_total / 3, 5, 7, 11 % pops_total];
+        cost_codes = vec![0, costs_total - 1, 0b0101_0101 % costs_total, 0b0011_0011 % costs_total];
+    }
+    for &pc in &pop_codes {
+        for &cc in &cost_codes {
+            let costs: Vec<i64> = (0..n).map(|i| cost_vals[((cc >> i) & 1) as usize]).collect();
+            let pops: Vec<u64> = (0..n).map(|i| pop_vals[((pc / 3u64.pow(i as u32)) % 3) as usize]).collect();
+            let sum: i64 = costs.iter().sum();
+            for dmax in [-1i64, 0, 1] {
+                let max = sum + dmax;
+                if max <= 0 {
+                    continue;
+                }
+                for inc_cost in [1i64, 3, 5] {
+                    for inc_hits in 0..=4u64 {
+                        acc.cases += 1;
+                        let pol = match VPolicy::detached(1024, 1_000_000, FixedState::default(), false) {
+                            Ok(p) => p,
+                            Err(e) => {
+                                acc.fail("policy-new", format!("{}", e));
+                                return;
+                            }
+                        };
+                        for (i, c) in costs.iter().enumerate() {
+                            let (_, added) = pol.add(i as u64 + 1, *c);
+                            if !added {
+                                acc.fail("room-not-admitted", format!("key {} cost {} was not admitted although there is room", i + 1, c));
+                                return;
+                            }
+                        }
+                        for (i, p) in pops.iter().enumerate() {
+                            for _ in 0..*p {
+                                pol.record(vec![i as u64 + 1]);
+                            }
+                        }
+                        for _ in 0..inc_hits {
+                            pol.record(vec![100]);
+                        }
+                        pol.update_max_cost(max);
+                        let _ = take_evict_rounds();
+                        let before = pol.snap();
+                        let est: std::collections::HashMap<u64, i64> = (1..=n as u64).chain([100]).map(|k| (k, pol.estimate(k))).collect();
+                        let (victims, added) = pol.add(100, inc_cost);
+                        acc.ops += 1;
+                        let rounds = take_evict_rounds();
+                        let after = pol.snap();
+                        let ctx = || format!("residents costs {:?} hits {:?} max_cost {} incoming cost {} hits {} -> victims {:?} added {} rounds {:?}", costs, pops, max, inc_cost, est[&100], victims, added, rounds);
+                        let room0 = max - (before.used + inc_cost);
+                        if inc_cost > max {
+                            if added || !rounds.is_empty() || after != before {
+                                acc.fail("oversize-admitted", ctx());
+                                return;
+                            }
+                            continue;
+                        }
+                        if room0 >= 0 {
+                            if !added || victims.as_ref().map(|v| !v.is_empty()).unwrap_or(false) || !rounds.is_empty() {
+                                acc.fail("room-not-admitted", format!("there is room but: {}", ctx()));
+                                return;
+                            }
+                            if after.used != before.used + inc_cost || !after.key_costs.contains(&(100, inc_cost)) {
+                                acc.fail("admitted-wrong-charge", ctx());
+                                return;
+                            }
+                            acc.state(&(n, &costs, &pops, dmax, inc_cost, inc_hits, "room"), false);
+                            continue;
+                        }
+                        // over budget: sampling rounds
+                        if rounds.is_empty() {
+                            acc.fail("no-sampling-round", format!("room is lacking but nothing was sampled: {}", ctx()));
+                            return;
+                        }
+                        let mut live: std::collections::HashMap<u64, i64> = before.key_costs.iter().copied().collect();
+                        let mut used = before.used;
+                        let mut rejected = false;
+                        let mut real_victims: Vec<(u64, i64)> = Vec::new();
+                        for (ri, r) in rounds.iter().enumerate() {
+                            if rejected {
+                                acc.fail("round-after-reject", format!("a sampling round happened after the newcomer was rejected: {}", ctx()));
+                                return;
+                            }
+                            let room = max - (used + inc_cost);
+                            if room >= 0 || r.room != room {
+                                acc.fail("evict-with-room", format!("round {} ran with room {} (reported {}): {}", ri, room, r.room, ctx()));
+                                return;
+                            }
+                            if r.inc_hits != est[&100] {
+                                acc.fail("wrong-incoming-estimate", ctx());
+                                return;
+                            }
+                            let distinct: std::collections::HashSet<u64> = r.sample.iter().map(|s| s.0).collect();
+                            if ri == 0 {
+                                let want = n.min(5);
+                                if distinct.len() != want || r.sample.len() != want {
+                                    acc.fail("sample-size", format!("first round sampled {:?}, expected {} distinct residents: {}", r.sample, want, ctx()));
+                                    return;
+                                }
+                                for (k, c) in &r.sample {
+                                    if live.get(k) != Some(c) {
+                                        acc.fail("sample-not-resident", format!("sampled ({}, {}) is not a resident with that charge: {}", k, c, ctx()));
+                                        return;
+                                    }
+                                }
+                            }
+                            if r.sample.is_empty() {
+                                // nothing left to sample: the implementation rejects through min_hits = i64::MAX
+                                if r.inc_hits >= r.min_hits {
+                                    acc.fail("empty-sample-not-rejected", ctx());
+                                    return;
+                                }
+                                rejected = true;
+                                continue;
+                            }
+                            let min = r.sample.iter().map(|s| est[&s.0]).min().unwrap();
+                            if r.min_hits != min || !r.sample.iter().any(|s| s.0 == r.min_key) || est[&r.min_key] != min {
+                                acc.fail("victim-not-least-popular", format!("round {}: candidate {} (estimate {}) is not the least popular of the sample (min {}): {}", ri, r.min_key, est.get(&r.min_key).copied().unwrap_or(-1), min, ctx()));
+                                return;
+                            }
+                            if r.inc_hits < r.min_hits {
+                                rejected = true;
+                                continue;
+                            }
+                            // evicted: no more popular than the newcomer
+                            if est[&r.min_key] > est[&100] {
+                                acc.fail("victim-more-popular", ctx());
+                                return;
+                            }
+                            if let Some(c) = live.remove(&r.min_key) {
+                                used -= c;
+                                real_victims.push((r.min_key, c));
+                            }
+                        }
+                        let reported: Vec<(u64, i64)> = victims.clone().unwrap_or_default();
+                        // phantom re-samples of an already evicted candidate may repeat a victim; the distinct ones must match
+                        let mut rep_distinct: Vec<(u64, i64)> = Vec::new();
+                        for v in &reported {
+                            if !rep_distinct.iter().any(|x| x.0 == v.0) {
+                                rep_distinct.push(*v);
+                            }
+                        }
+                        if rep_distinct != real_victims {
+                            acc.fail("victims-mismatch", format!("returned victims {:?} but the rounds evicted {:?}: {}", reported, real_victims, ctx()));
+                            return;
+                        }
+                        if rejected == added {
+                            acc.fail("reject-rule", format!("rejected exactly when strictly less popular than the least popular candidate is violated: {}", ctx()));
+                            return;
+                        }
+                        if added {
+                            if max - (used + inc_cost) < 0 {
+                                acc.fail("admission-over-budget", ctx());
+                                return;
+                            }
+                            if let Some((_, c)) = real_victims.last() {
+                                if max - (used + c + inc_cost) >= 0 {
+                                    acc.fail("evict-with-room", format!("the last eviction was not needed: {}", ctx()));
+                                    return;
+                                }
+                            }
+                            live.insert(100, inc_cost);
+                            used += inc_cost;
+                        }
+                        let mut a: Vec<(u64, i64)> = after.key_costs.clone();
+                        a.sort();
+                        let mut l: Vec<(u64, i64)> = live.into_iter().collect();
+                        l.sort();
+                        if a != l || after.used != used {
+                            acc.fail("policy-state-after-add", format!("charges after add {:?} (used {}) expected {:?} (used {}): {}", a, after.used, l, used, ctx()));
+                            return;
+                        }
+                        acc.state(&(n, &costs, &pops, dmax, inc_cost, inc_hits, added, &real_victims), true);
+                    }
+                }
+            }
+        }
+    }
+}
